@@ -32,6 +32,9 @@ func (n Name) pack(msg []byte, off int, compression map[string]uint16) (int, err
 	for scanner.Scan() {
 		seg := scanner.Label()
 		labelStart := scanner.LabelOff()
+		// The compression key must contain the length octet of its first
+		// label. Otherwise, label "a\x01b" will have the same key as "a.b".
+		labelStart--
 		// We can only compress domain suffixes starting with a new
 		// segment. A pointer is two bytes with the two most significant
 		// bits set to 1 to indicate that it is a pointer.
